@@ -463,7 +463,7 @@ Section Merge.
         pose proof (Hknown (k, v) X) as Y. change (key_text (k, v)) with (n_value k) in *.
         rewrite (field_of_name (n_value k) _ eq_refl Y). apply fname_in. exact Y. }
     (* dec_rule cannot tell the two assignment lists apart *)
-    apply (rule_sound_core plines metric_ok lname_ok lvalue_ok dur_ok expr_ok tmpl_pint tmpl_prom dur_zero str_ok int_ok null_ok
+    apply (rule_sound_core plines metric_ok lname_ok lvalue_ok dur_ok expr_ok tmpl_pint tmpl_prom dur_zero str_ok null_ok
              H_str H_null H_tmpl H_lname_empty H_lvalue_empty H_tmpl_empty lines rn glabels ps _ Hu Hps Hdec); auto.
     set (asg := map (fun kv : node * node => (key_text kv, snd kv))).
     assert (Eun : forall l, asg (un l) = unp_assign (asg l)).
